@@ -244,6 +244,27 @@ func runC04(c *core.Ctx) {
 		c.Undecided("C04.serial", "bus.clientService.Add", token.NoPos, "anchor not found")
 	}
 
+	// ------------------------------------------------------------ every request is delivered or answered
+	c.Doc("C04.delivered-or-answered", "a message accepted by a service is put into the object's mailbox (blocking send) or answered with an error: no path drops it", 1)
+	if fn := c.Func("bus", "serviceImpl", "Receive"); fn == nil {
+		c.Undecided("C04.delivered-or-answered", "bus.serviceImpl.Receive", token.NoPos, "anchor not found")
+	} else {
+		isSend := func(x ssa.Instruction) bool {
+			sd, ok := x.(*ssa.Send)
+			return ok && core.TypeIs(sd.Chan.Type(), "bus", "MailBox")
+		}
+		bad := ""
+		for _, ret := range core.Returns(fn) {
+			if cr, _ := core.CallResult(core.RetVal(ret, 0)); cr != nil && isSendErrorCall(cr) {
+				continue
+			}
+			if !core.MustPassBefore(fn, ret, isSend) {
+				bad = "serviceImpl.Receive can return (at " + c.Pos(ret.Pos()) + ") without having put the message into the object's mailbox and without answering it: a call that meets a busy object is dropped and its caller waits forever"
+			}
+		}
+		c.Check(bad == "", "C04.delivered-or-answered", "bus.serviceImpl.Receive", fn.Pos(), "every return follows a blocking send into the mailbox or is the result of SendError", bad)
+	}
+
 	// ------------------------------------------------------------ delivery
 	c.Doc("C04.delivery", "dispatch is the only sender on handler queues; single-shot handlers are removed in the same critical section", 2)
 	ruleSendOwner(c, a, lc, "C04.delivery")
